@@ -329,9 +329,14 @@ pub fn run(run: &mut Run) {
     }
     // larger populations (rayon splits them into many more jobs than threads): a reduced fault product
     // up to sizes at which any job-size or chunking threshold of a parallel step has long been crossed
-    let big_sizes: Vec<usize> = if quick { (7usize..=40).chain([64, 65, 97, 257, 1000, 1009, 2018, 4099, 10007, 65537]).collect() } else { (7usize..=130).chain([255, 256, 257, 1000, 1009, 2018, 4099, 10007, 65537, 131101]).collect() };
+    let big_sizes: Vec<usize> = if quick { (7usize..=40).chain([64, 65, 97, 257, 1000, 1009, 2018, 4099, 10007, 65537, 131_101]).collect() } else { (7usize..=130).chain([255, 256, 257, 1000, 1009, 2018, 4099, 10007, 65537, 131_101, 262_147, 524_309, 1_048_583]).collect() };
     for &n in &big_sizes {
-        let plans: Vec<Vec<usize>> = vec![vec![], vec![0], vec![n - 1], vec![n / 2], vec![0, n - 1], vec![n / 3, n / 2]];
+        let mut plans: Vec<Vec<usize>> = vec![vec![], vec![0], vec![n - 1], vec![n / 2], vec![0, n - 1], vec![n / 3, n / 2]];
+        if n > 100_000 {
+            // (beyond 2^17 individuals: success and one failure)
+            plans.truncate(1);
+            plans.push(vec![n / 2]);
+        }
         for plan in plans {
             configs += 1;
             execs += 1;
@@ -339,7 +344,7 @@ pub fn run(run: &mut Run) {
                 run.violation(format!("serial_next/{k}"), format!("serial_next, population {n}, failing calls {plan:?}: {w}"), json!({"check":"C09","variant":"serial","n":n,"fail":plan,"threads":0}));
             }
             for (pi, t) in pools.iter().enumerate() {
-                if ![1usize, 2, 3, 8, 16].contains(t) || (n > 5000 && ![1usize, 3, 16].contains(t)) {
+                if ![1usize, 2, 3, 8, 16].contains(t) || (n > 5000 && ![1usize, 3, 16].contains(t)) || (n > 100_000 && ![1usize, 16].contains(t)) {
                     continue;
                 }
                 configs += 1;
